@@ -1193,20 +1193,53 @@ func TestE2Cluster(t *testing.T) {
 		tmpl := "#!/usr/bin/env bash\n#SBATCH -J __MRO_JOB_NAME__\n#SBATCH --cpus-per-task=__MRO_THREADS__\n#SBATCH --mem=__MRO_MEM_GB__G\n#SBATCH -o __MRO_STDOUT__\n#SBATCH -e __MRO_STDERR__\n\n__MRO_CMD__\n"
 		os.WriteFile(filepath.Join(c.Dir, "slurm.template"), []byte(tmpl), 0o644)
 		maxJobs := rapid.IntRange(1, 4).Draw(t, "maxjobs")
-		c.Plan.SleepMs = rapid.SampledFrom([]int{10, 30}).Draw(t, "jobMs")
+		// (the long one: still running when a restarted mrp looks at it)
+		c.Plan.SleepMs = rapid.SampledFrom([]int{10, 30, 300, 300}).Draw(t, "jobMs")
 		c.Plan.Write(c.Dir)
 		os.Setenv("PATH", cl+":"+os.Getenv("PATH"))
 		defer os.Setenv("PATH", strings.TrimPrefix(os.Getenv("PATH"), cl+":"))
-		p, err := c.Start("--jobmode="+filepath.Join(c.Dir, "slurm.template"), fmt.Sprintf("--maxjobs=%d", maxJobs), "--jobinterval=0")
+		clusterArgs := []string{"--jobmode=" + filepath.Join(c.Dir, "slurm.template"), fmt.Sprintf("--maxjobs=%d", maxJobs), "--jobinterval=0"}
+		p, err := c.Start(clusterArgs...)
 		if err != nil {
 			t.Fatalf("INFRA: %v", err)
 		}
-		if rc := p.Wait(400 * time.Second); rc != 0 {
+		restarted := false
+		if rapid.IntRange(0, 2).Draw(t, "killAndRestart") > 0 {
+			// mrp is killed while jobs are on the "cluster" (they go on: the
+			// submit command detached them) and others wait for a slot; the
+			// restarted mrp has to count the ones that are still out there
+			after := rapid.IntRange(1, max(1, len(c.model.Jobs))).Draw(t, "afterRecords")
+			waitLedger(c, p, after, 20*time.Second)
+			if p.Running() {
+				p.Signal(9)
+				p.Wait(30 * time.Second)
+				os.Remove(filepath.Join(c.PsDir(), "_lock"))
+				restarted = true
+				c.logf("mrp killed after %d job records; restarted with the same options", len(c.Ledger()))
+				if p, err = c.Start(clusterArgs...); err != nil {
+					t.Fatalf("INFRA: %v", err)
+				}
+			}
+		}
+		rc := waitOrStall(p, 45*time.Second, 400*time.Second)
+		if rc == -1 && restarted {
+			if lost := lostSubmissions(c.PsDir()); len(lost) > 0 {
+				// mrp was killed after it had taken a job's
+				// _queued_locally marker away and before the submit
+				// command had the job: nothing will ever run or report it
+				if stats.Known("C05/cluster-job-lost-when-killed-while-submitting") {
+					stats.Count("C12", "excluded_known:cluster-job-lost-when-killed-while-submitting", 1)
+					return
+				}
+				fail(t, "C05", "cluster-job-lost-when-killed-while-submitting", "the restarted mrp waits for a job that was never submitted: %v\n%s\n%s", lost, stats.Trunc(p.Log(), 3000), c.describe())
+			}
+		}
+		if rc != 0 {
 			fail(t, "C12", "cluster-run-fails", "--maxjobs=%d: mrp exited with %d\n%s\n%s", maxJobs, rc, stats.Trunc(p.Log(), 3000), c.describe())
 		}
 		c.checkFinal(t, "C01")
 		recs := c.Ledger()
-		got, err := ledgerMultiset(c.prog, recs, false)
+		got, err := ledgerMultiset(c.prog, recs, restarted)
 		if err != nil {
 			t.Fatalf("INFRA: %v", err)
 		}
@@ -1238,9 +1271,25 @@ func TestE2Cluster(t *testing.T) {
 		}
 		// (local preflight stages do not go through the submit command)
 		if len(submitted) == len(recs) && maxRun > maxJobs {
-			fail(t, "C12", "maxjobs-exceeded", "--maxjobs=%d but %d stage processes ran at the same time\n%s", maxJobs, maxRun, c.describe())
+			var tl []string
+			for _, r := range recs {
+				tl = append(tl, fmt.Sprintf("%s [%d .. %d]", r.Identity, (r.Start-recs[0].Start)/1e6, (r.End-recs[0].Start)/1e6))
+			}
+			logs := ""
+			for i := 1; i <= c.Runs; i++ {
+				b, _ := os.ReadFile(filepath.Join(c.Dir, fmt.Sprintf("mrp.%d.log", i)))
+				logs += fmt.Sprintf("--- mrp run %d\n%s\n", i, stats.Trunc(string(b), 2500))
+			}
+			key := "maxjobs-exceeded"
+			if restarted {
+				key = "maxjobs-exceeded-after-restart"
+			}
+			fail(t, "C12", key, "--maxjobs=%d but %d stage processes ran at the same time (ms since the first start):\n  %s\n%s%s", maxJobs, maxRun, strings.Join(tl, "\n  "), logs, c.describe())
 		}
 		cls := []string{"e2-cluster", fmt.Sprintf("maxjobs:%d", maxJobs)}
+		if restarted {
+			cls = append(cls, "cluster-restart")
+		}
 		if maxRun > 1 {
 			cls = append(cls, "jobs-overlapped")
 		}
@@ -1248,6 +1297,49 @@ func TestE2Cluster(t *testing.T) {
 			return map[string]any{"program": stats.Trunc(c.src, 600), "maxjobs": maxJobs, "max_running": maxRun, "submitted": len(submitted)}
 		})
 	})
+}
+
+// waitOrStall is Proc.Wait that gives up early (-1, process group killed) when
+// mrp has not written a line for the quiet period: in cluster mode it reports
+// every state change of every fork, and polls every few seconds.
+func waitOrStall(p *mrprun.Proc, quiet, total time.Duration) int {
+	deadline := time.Now().Add(total)
+	last, lastChange := int64(-1), time.Now()
+	for p.Running() && time.Now().Before(deadline) {
+		if fi, err := os.Stat(p.LogPath); err == nil && fi.Size() != last {
+			last, lastChange = fi.Size(), time.Now()
+		}
+		if time.Since(lastChange) > quiet {
+			break
+		}
+		time.Sleep(20 * time.Millisecond)
+	}
+	if !p.Running() {
+		return p.Wait(time.Minute)
+	}
+	return p.Wait(0)
+}
+
+// lostSubmissions: job directories in the state "reserved but never
+// submitted" - _jobinfo is there (written when the job was queued inside
+// mrp), the _queued_locally marker is gone (taken away just before the submit
+// command runs), and neither a job id nor anything from the job itself.
+func lostSubmissions(ps string) []string {
+	var lost []string
+	filepath.WalkDir(ps, func(path string, d os.DirEntry, err error) error {
+		if err != nil || d.IsDir() || d.Name() != "_jobinfo" {
+			return nil
+		}
+		dir := filepath.Dir(path)
+		for _, f := range []string{"_queued_locally", "_jobid", "_log", "_complete", "_errors", "_assert"} {
+			if _, err := os.Stat(filepath.Join(dir, f)); err == nil {
+				return nil
+			}
+		}
+		lost = append(lost, strings.TrimPrefix(dir, ps+"/"))
+		return nil
+	})
+	return lost
 }
 
 // TestE2CrashPoints: C05 with the crash placed by system call count - mrp
@@ -1398,5 +1490,59 @@ func TestKnownKilledWhileCreating(t *testing.T) {
 	}
 	if rc := pr.Wait(120 * time.Second); rc != 0 {
 		fmt.Printf("KNOWN-PRESENT C05/killed-while-creating-the-pipestance: mrp exits with %d on a directory it was killed in while creating it: %s\n", rc, stats.Trunc(pr.Log(), 300))
+	}
+}
+
+// Reproducer of C05/cluster-job-lost-when-killed-while-submitting: mrp in
+// cluster mode dies (SIGKILL) inside RemoteJobManager.sendJob after it has
+// removed the job's _queued_locally marker and before the submit command has
+// the job.  The submit command of this test stands for that instant: on its
+// first invocation it kills mrp and submits nothing - on disk exactly what a
+// kill just before the exec leaves.  The restarted mrp takes the job for one
+// that is out on the cluster and waits for it for ever.
+func TestKnownClusterJobLost(t *testing.T) {
+	root := workRoot(t)
+	dir := filepath.Join(root, fmt.Sprintf("e2knownlost%d", os.Getpid()))
+	defer os.RemoveAll(dir)
+	p := &mrogen.Program{U: &mrogen.Universe{Structs: []*mrogen.Struct{{Name: "S0", Fields: []mrogen.Field{{Name: "f", T: tInt}}}}}}
+	p.Stages = []*mrogen.Stage{st("A", []mrogen.Param{pm("p", tInt)}, []mrogen.Param{pm("o", tInt)})}
+	top := &mrogen.Pipeline{Name: "TOP", Ins: []mrogen.Param{pm("n", tInt)}, Outs: []mrogen.Param{pm("r", tInt)},
+		Calls: []*mrogen.Call{{Id: "A", Callee: "A", Bindings: []mrogen.Binding{{Param: "p", E: self("n")}}}},
+		Ret:   []mrogen.Binding{{Param: "r", E: out("A", "o")}}}
+	p.Pipelines = []*mrogen.Pipeline{top}
+	p.Top = &mrogen.Call{Id: "TOP", Callee: "TOP", Bindings: []mrogen.Binding{{Param: "n", E: lit(num(1), tInt)}}}
+	m := os.Getenv("VERIF_MROOT")
+	if m == "" {
+		t.Skip("no VERIF_MROOT")
+	}
+	c, err := mrprun.New(p, p.Source(nil), dir, m, &plan.Plan{Faults: map[string]plan.Fault{}})
+	if err != nil {
+		t.Fatalf("INFRA: %v", err)
+	}
+	c.Plan.Write(c.Dir)
+	cl := filepath.Join(c.Dir, "cluster")
+	os.MkdirAll(cl, 0o755)
+	sbatch := "#!/bin/sh\nif [ ! -e \"" + cl + "/first\" ]; then : > \"" + cl + "/first\"; kill -9 $PPID; exit 1; fi\n" +
+		"f=$(mktemp \"" + cl + "/job.XXXXXX\")\ncat > \"$f\"\n(setsid sh \"$f\" > \"$f.out\" 2>&1 &)\necho $$\n"
+	os.WriteFile(filepath.Join(cl, "sbatch"), []byte(sbatch), 0o755)
+	tmpl := "#!/usr/bin/env bash\n#SBATCH -J __MRO_JOB_NAME__\n#SBATCH -o __MRO_STDOUT__\n#SBATCH -e __MRO_STDERR__\n\n__MRO_CMD__\n"
+	os.WriteFile(filepath.Join(c.Dir, "slurm.template"), []byte(tmpl), 0o644)
+	os.Setenv("PATH", cl+":"+os.Getenv("PATH"))
+	defer os.Setenv("PATH", strings.TrimPrefix(os.Getenv("PATH"), cl+":"))
+	args := []string{"--jobmode=" + filepath.Join(c.Dir, "slurm.template"), "--maxjobs=2", "--jobinterval=0"}
+	pr, err := c.Start(args...)
+	if err != nil {
+		t.Fatalf("INFRA: %v", err)
+	}
+	if rc := pr.Wait(60 * time.Second); rc != -2 {
+		t.Fatalf("INFRA: the first mrp was to be killed by the submit command, exit %d\n%s", rc, pr.Log())
+	}
+	os.Remove(filepath.Join(c.PsDir(), "_lock"))
+	if pr, err = c.Start(args...); err != nil {
+		t.Fatalf("INFRA: %v", err)
+	}
+	rc := waitOrStall(pr, 30*time.Second, 120*time.Second)
+	if lost := lostSubmissions(c.PsDir()); rc == -1 && len(lost) > 0 {
+		fmt.Printf("KNOWN-PRESENT C05/cluster-job-lost-when-killed-while-submitting: the restarted mrp waits for %v, which was never submitted: %s\n", lost, stats.Trunc(pr.Log(), 300))
 	}
 }
